@@ -940,6 +940,35 @@ fn visit<const A: usize, const L: usize>(cfg: &ECfg, st: &mut EStats, node: &ENo
                     ok &= check_l2_is_live::<A>(st, &acts, &obs, &live, "after-step");
                 }
                 if cl.grid {
+                    // the per-level data the environment publishes accounts for all resting volume in its range
+                    for a in 0..A {
+                        let tick = cfg.ticks[a] as i64;
+                        let l2 = &obs[a].l2;
+                        for bid in [true, false] {
+                            let act: Vec<&OrderRec> = obs[a].book.orders.iter().filter(|o| o.status == ACTIVE && o.bid == bid).collect();
+                            let touch = if bid { act.iter().map(|o| o.price).max().unwrap_or(0) } else { act.iter().map(|o| o.price).min().unwrap_or(MAXP) };
+                            let total: u64 = act.iter().map(|o| o.vol as u64).sum();
+                            let (pt, pv, lv) = if bid { (l2.head[0], l2.head[2], &l2.bid) } else { (l2.head[1], l2.head[3], &l2.ask) };
+                            let mut bad = pt != touch || pv as u64 != total;
+                            for (i, got) in lv.iter().enumerate() {
+                                let p = if bid { touch as i64 - i as i64 * tick } else { touch as i64 + i as i64 * tick };
+                                let want = if act.is_empty() {
+                                    (0u32, 0u32)
+                                } else {
+                                    (act.iter().filter(|o| o.price as i64 == p).map(|o| o.vol).sum::<u32>(), act.iter().filter(|o| o.price as i64 == p).count() as u32)
+                                };
+                                bad |= *got != want;
+                            }
+                            if bad {
+                                st.fail(
+                                    "grid/published-levels-miss-resting-volume".into(),
+                                    format!("asset {} side bid={}: level_2_data() {:?} but the resting orders are {:?}", a, bid, l2, act),
+                                    &acts,
+                                );
+                                ok = false;
+                            }
+                        }
+                    }
                     for a in 0..A {
                         for o in &obs[a].book.orders {
                             let market = (o.bid && o.price == MAXP) || (!o.bid && o.price == 0);
